@@ -100,6 +100,21 @@ def rot2 (f1 f2 : List α) : List (List α) :=
   | [a0, a1] => [[a0, a1], [-a1, a0]]
   | _ => []
 
+/-- identity matrix as a list of unit columns -/
+def identityRot (n : Nat) : List (List α) :=
+  (List.range n).map (fun j => (List.range n).map (fun i => if i = j then Num.ofNat 1 else Num.ofNat 0))
+
+/-- `circleTol = 1E-9` of `updateRotation` -/
+def circleTol : α := Num.ofDec 1 9
+
+/-- constructor incl. the branch structure of `updateRotation`: if the foci are closer than `circleTol` the PHS is
+treated as a circle and the rotation is the identity; otherwise the (SVD) rotation is the supplied parameter — in
+dimension 2 the model's own `rot2`. -/
+def Phs.mkAuto (id : Nat) (f1 f2 : List α) (rot : List (List α)) : Phs α :=
+  let cmin := vnorm (vsub f1 f2)
+  if cmin < circleTol then Phs.mk' id f1 f2 (identityRot f1.length)
+  else Phs.mk' id f1 f2 rot
+
 /-- conjugate radius `sqrt(c² - cmin²) / 2` -/
 def conjRadius (c cmin : α) : α := Num.sqrt (c * c - cmin * cmin) / Num.ofNat 2
 
@@ -191,6 +206,11 @@ def updLoop (c : α) : List (Phs α) → List (Phs α) → Nat → α → List (
 def Sampler.update (s : Sampler α) (c : α) : Sampler α :=
   let r := updLoop c s.phss [] s.phss.length (Num.ofNat 0)
   { s with phss := r.1, summed := r.2 }
+
+/-- the repair proposed for F36 (notes/C15-fix-F36.diff): `updatePhsDefinitions` first restores the full list of PHSs
+built at construction (`all`), then walks it as before — the result no longer depends on earlier bounds -/
+def Sampler.updateRestoring (s : Sampler α) (all : List (Phs α)) (c : α) : Sampler α :=
+  ({ s with phss := all }).update c
 
 /-- `informedSubSpace_->getMeasure() < summedMeasure_ / listPhsPtrs_.size()` -/
 def Sampler.useBoundsBranch (s : Sampler α) : Bool :=
@@ -301,6 +321,20 @@ def Sampler.sampleInner (s : Sampler α) (inB : List α × ρ → Bool) (fin : B
     let s' := s.update c
     if s'.useBoundsBranch then (s', rejectLoop (fun st => s'.isInAny st.1) s'.numIters ds cur it)
     else (s', phsRejectBounds s' inB s'.numIters ds cur it)
+
+/-- after `updatePhsDefinitions`: exactly one PHS is left and its focal distance is not below the bound — no PHS can
+improve on `c` (the degenerate branch set its diameter to its own focal distance) -/
+def Sampler.cannotImprove (s' : Sampler α) (c : α) : Bool :=
+  match s'.phss with
+  | [p] => !(decide (p.cmin < c))
+  | _ => false
+
+/-- the repair proposed for F130 (notes/C15-fix-F130.diff): the private `sampleUniform` returns false right after
+`updatePhsDefinitions` when no PHS can improve on `maxCost`, instead of sampling the focal segment -/
+def Sampler.sampleInnerFixed (s : Sampler α) (inB : List α × ρ → Bool) (fin : Bool) (c : α)
+    (ds : List (Draw α ρ)) (cur : List α × ρ) (it : Nat) : Sampler α × Out α ρ :=
+  if fin && (s.update c).cannotImprove c then (s.update c, ⟨false, cur, it, ds, false, false⟩)
+  else s.sampleInner inB fin c ds cur it
 
 /-- public `sampleUniform(statePtr, maxCost)` -/
 def Sampler.sample2 (s : Sampler α) (inB : List α × ρ → Bool) (fin : Bool) (c : α)
